@@ -1126,6 +1126,30 @@ func splitReportCase(opt *config.PersistOptions, wb bool) hcase {
 	return c
 }
 
+// a stale record left in storage, then a restart: thread 1 puts region 2 [a,c) v1 and is parked before its save; thread 2 puts region 1
+// [a,c) v2 (displacing region 2), deletes region 2 from storage (not there yet) and saves region 1; thread 1's save lands: storage holds
+// the displaced region 2 next to region 1 (the documented effect of the unlocked storage writes).  PD restarts: the load reaches the
+// stale record after the newer one and must prune it - the keys stay served by region 1 version 2.
+func staleLeftoverReloadCase(opt *config.PersistOptions) hcase {
+	c := hcase{WB: false, tags: map[string]int{"directed:stale-record-then-restart": 1}}
+	w := newWorld(false, opt)
+	defer w.close()
+	g := &gen{r: rng.New(1), w: w, c: &c, ids: map[uint64]bool{}, last: time.Now()}
+	g.raw(hop{K: "snap"})
+	a := c07x.Region{ID: 2, Start: "a", End: "c", Peers: []c07x.Peer{{ID: 21, Store: 1}, {ID: 22, Store: 2}}, Leader: 21, Size: 10, Ver: 1, ConfVer: 1, Term: 1, Stamp: 1}
+	b := c07x.Region{ID: 1, Start: "a", End: "c", Peers: []c07x.Peer{{ID: 11, Store: 1}, {ID: 12, Store: 2}}, Leader: 11, Size: 10, Ver: 2, ConfVer: 1, Term: 1, Stamp: 2}
+	g.step(hop{K: "begin", T: 1, R: &a})
+	g.step(hop{K: "step", T: 1})
+	g.step(hop{K: "begin", T: 2, R: &b})
+	g.step(hop{K: "step", T: 2})
+	g.step(hop{K: "step", T: 2})
+	g.step(hop{K: "step", T: 2})
+	g.step(hop{K: "step", T: 1}) // the overtaken save of region 2
+	g.step(hop{K: "reload"})
+	g.step(hop{K: "flush"})
+	return c
+}
+
 // the check-then-put window: stream A (a new id, older in version than what stream B is about to put over its range) passes the
 // first PreCheckPutRegion and waits at c.Lock(); B is processed completely; A is then rejected by the check under the lock.
 // Nothing of A may have reached the cache or storage.
@@ -1291,6 +1315,7 @@ func main() {
 		emit(autoFlushRegression(opt))
 		emit(overtakenSaveProbe(opt, false)) // direct backend only: a save into the write-back batch is not a kv write the harness can park
 		emit(termProbe(opt))
+		emit(staleLeftoverReloadCase(opt))
 		emit(splitReportCase(opt, false))
 		emit(splitReportCase(opt, true))
 		if d, ops := scanUnderWriter(opt, *seed, 1100, 400); d != "" {
